@@ -449,4 +449,260 @@ theorem MaxIndex_eq (s : PStore) (cap : Int) (fuel : Nat) (hf : maxFuel s ≤ fu
   exact max_loop1 s cap (PStore.listMax? s.buffer) s.pages.size fuel (Nat.le_refl _)
     (by unfold maxFuel at hf; omega)
 
+/-! ## minIndexWithCumulCount (predicate `cumulCount > rank`) and KeyAtRank -/
+
+/-- the predicate `KeyAtRank` passes -/
+def rankPred (rank : Rat) : Rat → Res Bool := fun cumulCount => .ok (decide (rank < cumulCount))
+
+def notFoundErr : GoErr := GoErr.named "the predicate on the cumulative count is never verified"
+
+/-- result of `minIndexWithCumulCount` on the (already sorted) store `g` -/
+def feOut (g : GP) (r : Option Int) : Res (GP × Int × GoErr) :=
+  match r with
+  | some k => .ok (g, k, GoErr.nil)
+  | none => .ok (g, (0 : Int), notFoundErr)
+
+theorem drop_cons_inv {α : Type} (B : List α) (pos : Nat) (x : α) (xs : List α) (h : B.drop pos = x :: xs) :
+    pos < B.length ∧ B[pos]? = some x ∧ B.drop (pos + 1) = xs := by
+  have hlt : pos < B.length := by
+    apply Nat.lt_of_not_le
+    intro hle
+    rw [List.drop_eq_nil_of_le hle] at h
+    cases h
+  rw [List.drop_eq_getElem_cons hlt] at h
+  injection h with h1 h2
+  exact ⟨hlt, by simp [hlt, h1], h2⟩
+
+theorem cum_loop4 (s : PStore) (cap : Int) (idx : Int) (rank : Rat) :
+    ∀ (b : List Int) (pos : Nat) (acc : Rat) (fuel mf : Nat),
+      s.buffer.drop pos = b → b.length + 1 ≤ fuel → b.length ≤ mf →
+      (∀ k b' a', PStore.firstExceeding.drain rank idx b acc mf = (some k, b', a') →
+        BufferedPaginatedStore.minIndexWithCumulCount.loop4 (toGen s cap) idx (rankPred rank) fuel acc (pos : Int)
+          = .ret (toGen s cap, k, GoErr.nil)) ∧
+      (∀ b' a', PStore.firstExceeding.drain rank idx b acc mf = (none, b', a') →
+        ∃ pos' : Nat, s.buffer.drop pos' = b' ∧
+          BufferedPaginatedStore.minIndexWithCumulCount.loop4 (toGen s cap) idx (rankPred rank) fuel acc (pos : Int)
+            = .done (a', (pos' : Int))) := by
+  intro b
+  induction b with
+  | nil =>
+    intro pos acc fuel mf hb hf hmf
+    obtain ⟨f, rfl⟩ : ∃ f, fuel = f + 1 := ⟨fuel - 1, by omega⟩
+    have hd : PStore.firstExceeding.drain rank idx [] acc mf = (none, [], acc) := by
+      cases mf <;> rfl
+    have hle : s.buffer.length ≤ pos := List.drop_eq_nil_iff.1 hb
+    rw [hd]
+    refine ⟨fun k b' a' h => (by cases h), fun b' a' h => ?_⟩
+    injection h with _ h; injection h with h1 h2
+    subst h1; subst h2
+    refine ⟨pos, hb, ?_⟩
+    unfold BufferedPaginatedStore.minIndexWithCumulCount.loop4
+    have hc : ¬ (decide ((pos : Int) < GoSem.len (toGen s cap).buffer) = true) := by
+      rw [decide_eq_true_eq]; simp only [toGen_buffer, GoSem.len]; omega
+    rw [if_neg hc]
+  | cons x xs ih =>
+    intro pos acc fuel mf hb hf hmf
+    obtain ⟨f, rfl⟩ : ∃ f, fuel = f + 1 := ⟨fuel - 1, by simp at hf; omega⟩
+    obtain ⟨m, rfl⟩ : ∃ m, mf = m + 1 := ⟨mf - 1, by simp at hmf; omega⟩
+    obtain ⟨hlt, hget, hdrop⟩ := drop_cons_inv _ _ _ _ hb
+    have hidx : GoSem.idx (toGen s cap).buffer (pos : Int) = some x := by
+      unfold GoSem.idx
+      rw [if_neg (by omega)]
+      simpa using hget
+    have hcond : decide ((pos : Int) < GoSem.len (toGen s cap).buffer) = true := by
+      apply decide_eq_true
+      simp only [toGen_buffer, GoSem.len]; omega
+    have hstep : BufferedPaginatedStore.minIndexWithCumulCount.loop4 (toGen s cap) idx (rankPred rank) (f + 1) acc (pos : Int)
+        = if x < idx then
+            (if rank < acc + 1 then .ret (toGen s cap, x, GoErr.nil)
+             else BufferedPaginatedStore.minIndexWithCumulCount.loop4 (toGen s cap) idx (rankPred rank) f (acc + 1) ((pos + 1 : Nat) : Int))
+          else .done (acc, (pos : Int)) := by
+      rw [BufferedPaginatedStore.minIndexWithCumulCount.loop4]
+      rw [if_pos hcond, hidx]
+      simp only [GoSem.optL_some, rankPred, Res.bindL_ok, decide_eq_true_eq]
+      rfl
+    have hdr : PStore.firstExceeding.drain rank idx (x :: xs) acc (m + 1)
+        = if x < idx then
+            (if acc + 1 > rank then (some x, xs, acc + 1) else PStore.firstExceeding.drain rank idx xs (acc + 1) m)
+          else (none, x :: xs, acc) := by
+      rw [PStore.firstExceeding.drain]
+    rw [hstep, hdr]
+    by_cases hx : x < idx
+    · simp only [hx, if_true, gt_iff_lt]
+      by_cases hr : rank < acc + 1
+      · simp only [hr, if_true]
+        refine ⟨fun k b' a' h => ?_, fun b' a' h => by cases h⟩
+        injection h with h _; injection h with h; subst h; rfl
+      · simp only [hr, if_false]
+        exact ih (pos + 1) (acc + 1) f m hdrop (by simp at hf; omega) (by simp at hmf; omega)
+    · simp only [hx, if_false]
+      refine ⟨fun k b' a' h => (by cases h), fun b' a' h => ?_⟩
+      injection h with _ h; injection h with h1 h2
+      subst h1; subst h2
+      exact ⟨pos, hb, rfl⟩
+
+theorem cum_loop1 (s : PStore) (cap : Int) (rank : Rat)
+    (K : Rat × Int → Res (GP × Int × GoErr)) (hK : ∀ x, K x = .ok (toGen s cap, (0 : Int), notFoundErr)) :
+    ∀ (b : List Int) (pos : Nat) (acc : Rat) (fuel : Nat),
+      s.buffer.drop pos = b → b.length + 1 ≤ fuel →
+      Loop.elim (BufferedPaginatedStore.minIndexWithCumulCount.loop1 (toGen s cap) (rankPred rank) fuel acc (pos : Int)) K
+        = feOut (toGen s cap) (PStore.firstExceeding.rest rank b acc) := by
+  intro b
+  induction b with
+  | nil =>
+    intro pos acc fuel hb hf
+    obtain ⟨f, rfl⟩ : ∃ f, fuel = f + 1 := ⟨fuel - 1, by omega⟩
+    have hle : s.buffer.length ≤ pos := List.drop_eq_nil_iff.1 hb
+    unfold BufferedPaginatedStore.minIndexWithCumulCount.loop1
+    have hc : ¬ (decide ((pos : Int) < GoSem.len (toGen s cap).buffer) = true) := by
+      rw [decide_eq_true_eq]; simp only [toGen_buffer, GoSem.len]; omega
+    rw [if_neg hc, Loop.elim_done, hK, PStore.firstExceeding.rest]
+    rfl
+  | cons x xs ih =>
+    intro pos acc fuel hb hf
+    obtain ⟨f, rfl⟩ : ∃ f, fuel = f + 1 := ⟨fuel - 1, by simp at hf; omega⟩
+    obtain ⟨hlt, hget, hdrop⟩ := drop_cons_inv _ _ _ _ hb
+    have hidx : GoSem.idx (toGen s cap).buffer (pos : Int) = some x := by
+      unfold GoSem.idx
+      rw [if_neg (by omega)]
+      simpa using hget
+    have hcond : decide ((pos : Int) < GoSem.len (toGen s cap).buffer) = true := by
+      apply decide_eq_true
+      simp only [toGen_buffer, GoSem.len]; omega
+    rw [BufferedPaginatedStore.minIndexWithCumulCount.loop1, if_pos hcond, PStore.firstExceeding.rest]
+    simp only [rankPred, Res.bindL_ok, decide_eq_true_eq, hidx, GoSem.optL_some, gt_iff_lt]
+    by_cases hr : rank < acc + 1
+    · simp only [hr, if_true, Loop.elim_ret]; rfl
+    · simp only [hr, if_false]
+      exact ih (pos + 1) (acc + 1) f hdrop (by simp at hf; omega)
+
+/-- the lines of one page from line `li` on, as `(index, count)` pairs -/
+def linesOf (s : PStore) (p : Int) (li : Nat) (cs : List Rat) : List (Int × Rat) :=
+  (cs.zipIdx li).map (fun cl => (s.index p cl.2, cl.1))
+
+/-- the lines of the pages `pgs` sitting at offsets `off, off+1, …` -/
+def pagesLines (s : PStore) (off : Nat) (pgs : List (Array Rat)) : List (Int × Rat) :=
+  (pgs.zipIdx off).flatMap (fun po => linesOf s (s.minPageIndex + (po.2 : Int)) 0 po.1.toList)
+
+theorem pageLines_eq (s : PStore) : s.pageLines = pagesLines s 0 s.pages.toList := rfl
+
+theorem cum_loop3 (s : PStore) (cap : Int) (rank : Rat) (off : Nat) (fuel : Nat)
+    (hf : s.buffer.length + 1 ≤ fuel) (k1 : Int × Rat → Res (GP × Int × GoErr)) :
+    ∀ (cs : List Rat) (li pos : Nat) (acc : Rat)
+      (K : Int × Rat → Loop (Int × Rat) (GP × Int × GoErr)) (more : List (Int × Rat)),
+      (∀ (pos' : Nat) (acc' : Rat), Loop.elim (K ((pos' : Int), acc')) k1
+          = feOut (toGen s cap) (PStore.firstExceeding more (s.buffer.drop pos') acc' rank)) →
+      Loop.elim (Loop.elimL (BufferedPaginatedStore.minIndexWithCumulCount.loop3 fuel (toGen s cap) (off : Int)
+          (rankPred rank) cs (li : Int) (pos : Int) acc) K) k1
+        = feOut (toGen s cap) (PStore.firstExceeding (linesOf s (s.minPageIndex + (off : Int)) li cs ++ more)
+            (s.buffer.drop pos) acc rank) := by
+  intro cs
+  induction cs with
+  | nil =>
+    intro li pos acc K more hK
+    rw [BufferedPaginatedStore.minIndexWithCumulCount.loop3]
+    simp only [Loop.elimL, linesOf, List.zipIdx_nil, List.map_nil, List.nil_append]
+    exact hK pos acc
+  | cons c cs ih =>
+    intro li pos acc K more hK
+    rw [BufferedPaginatedStore.minIndexWithCumulCount.loop3]
+    simp only [toGen_minPageIndex, rd_index]
+    have hlines : linesOf s (s.minPageIndex + (off : Int)) li (c :: cs)
+        = (s.index (s.minPageIndex + (off : Int)) li, c) :: linesOf s (s.minPageIndex + (off : Int)) (li + 1) cs := by
+      simp only [linesOf, List.zipIdx_cons, List.map_cons]
+    rw [hlines, List.cons_append, PStore.firstExceeding.eq_2]
+    have hlen : (s.buffer.drop pos).length + 1 ≤ fuel := by
+      simp only [List.length_drop]; omega
+    have h4 := cum_loop4 s cap (s.index (s.minPageIndex + (off : Int)) li) rank (s.buffer.drop pos) pos acc fuel
+      (s.buffer.drop pos).length rfl hlen (Nat.le_refl _)
+    rcases hd : PStore.firstExceeding.drain rank (s.index (s.minPageIndex + (off : Int)) li) (s.buffer.drop pos) acc
+      (s.buffer.drop pos).length with ⟨o, b', a'⟩
+    cases o with
+    | some k =>
+      rw [h4.1 k b' a' hd]
+      simp only [Loop.elimL, Loop.elim_ret]
+      rfl
+    | none =>
+      obtain ⟨pos', hdrop', hl4⟩ := h4.2 b' a' hd
+      rw [hl4]
+      simp only [Loop.elimL, rankPred, Res.bindL_ok, decide_eq_true_eq, gt_iff_lt]
+      by_cases hr : rank < a' + c
+      · simp only [hr, if_true, Loop.elim_ret]; rfl
+      · simp only [hr, if_false]
+        have := ih (li + 1) pos' (a' + c) K more hK
+        rw [hdrop'] at this
+        rw [← this]
+        simp only [Int.natCast_add, Int.cast_ofNat_Int]
+        rfl
+
+theorem cum_loop2 (s : PStore) (cap : Int) (rank : Rat) (fuel : Nat)
+    (hf : s.buffer.length + 1 ≤ fuel) (k1 : Int × Rat → Res (GP × Int × GoErr))
+    (hk1 : ∀ (pos : Nat) (acc : Rat), k1 ((pos : Int), acc)
+        = feOut (toGen s cap) (PStore.firstExceeding.rest rank (s.buffer.drop pos) acc)) :
+    ∀ (pgs : List (Array Rat)) (off pos : Nat) (acc : Rat),
+      Loop.elim (BufferedPaginatedStore.minIndexWithCumulCount.loop2 fuel (toGen s cap) (rankPred rank)
+          (pgs.map Array.toList) (off : Int) (pos : Int) acc) k1
+        = feOut (toGen s cap) (PStore.firstExceeding (pagesLines s off pgs) (s.buffer.drop pos) acc rank) := by
+  intro pgs
+  induction pgs with
+  | nil =>
+    intro off pos acc
+    rw [List.map_nil, BufferedPaginatedStore.minIndexWithCumulCount.loop2, Loop.elim_done, hk1]
+    simp only [pagesLines, List.zipIdx_nil, List.flatMap_nil, PStore.firstExceeding.eq_1]
+  | cons pg pgs ih =>
+    intro off pos acc
+    rw [List.map_cons, BufferedPaginatedStore.minIndexWithCumulCount.loop2]
+    have hpl : pagesLines s off (pg :: pgs)
+        = linesOf s (s.minPageIndex + (off : Int)) 0 pg.toList ++ pagesLines s (off + 1) pgs := by
+      simp only [pagesLines, List.zipIdx_cons, List.flatMap_cons]
+    rw [hpl]
+    have h3 := cum_loop3 s cap rank off fuel hf k1 pg.toList 0 pos acc
+      (fun x => BufferedPaginatedStore.minIndexWithCumulCount.loop2 fuel (toGen s cap) (rankPred rank)
+        (pgs.map Array.toList) ((off : Int) + 1) x.1 x.2)
+      (pagesLines s (off + 1) pgs)
+      (by
+        intro pos' acc'
+        have := ih (off + 1) pos' acc'
+        simp only [Int.natCast_add, Int.cast_ofNat_Int] at this
+        exact this)
+    simp only [Int.cast_ofNat_Int] at h3
+    exact h3
+
+/-- fuel for `minIndexWithCumulCount`: each buffer-draining loop runs at most `len(buffer)` times -/
+def cumFuel (s : PStore) : Nat := s.buffer.length + 1
+
+theorem sortBuffer_toGen (s : PStore) (cap : Int) :
+    BufferedPaginatedStore.sortBuffer (toGen s cap) = toGen { s with buffer := PStore.sortInts s.buffer } cap := rfl
+
+/-- **minIndexWithCumulCount** with the predicate `cumulCount > rank`: the buffer is sorted in place, and the
+    answer is the model's `firstExceeding` over the page lines and the sorted buffer -/
+theorem minIndexWithCumulCount_eq (s : PStore) (cap : Int) (rank : Rat) (fuel : Nat) (hf : cumFuel s ≤ fuel) :
+    BufferedPaginatedStore.minIndexWithCumulCount fuel (toGen s cap) (fun c => .ok (decide (rank < c)))
+      = .ok (match PStore.firstExceeding s.pageLines (PStore.sortInts s.buffer) 0 rank with
+             | some k => (toGen { s with buffer := PStore.sortInts s.buffer } cap, k, GoErr.nil)
+             | none => (toGen { s with buffer := PStore.sortInts s.buffer } cap, (0 : Int),
+                 GoErr.named "the predicate on the cumulative count is never verified")) := by
+  unfold BufferedPaginatedStore.minIndexWithCumulCount
+  simp only [sortBuffer_toGen]
+  generalize hs' : ({ s with buffer := PStore.sortInts s.buffer } : PStore) = s'
+  have hlen : s'.buffer.length + 1 ≤ fuel := by
+    subst hs'
+    simp only [PStore.sortInts, List.length_mergeSort]
+    exact hf
+  have h2 := cum_loop2 s' cap rank fuel hlen
+    (fun x => Loop.elim (BufferedPaginatedStore.minIndexWithCumulCount.loop1 (toGen s' cap) (rankPred rank) fuel x.2 x.1)
+      (fun _ => .ok (toGen s' cap, (0 : Int), notFoundErr)))
+    (by
+      intro pos acc
+      exact cum_loop1 s' cap rank _ (fun _ => rfl) (s'.buffer.drop pos) pos acc fuel rfl
+        (by simp only [List.length_drop]; omega))
+    s'.pages.toList 0 0 0
+  simp only [Int.cast_ofNat_Int, List.drop_zero, ← pageLines_eq] at h2
+  have hpl : s'.pageLines = s.pageLines := by subst hs'; rfl
+  have hbuf : s'.buffer = PStore.sortInts s.buffer := by subst hs'; rfl
+  rw [hpl, hbuf] at h2
+  refine Eq.trans ?_ (h2.trans ?_)
+  · rfl
+  · cases PStore.firstExceeding s.pageLines (PStore.sortInts s.buffer) 0 rank <;> rfl
+
 end DDS.GenPag
